@@ -16,7 +16,12 @@ META = ("other",
         "is selected exactly when the escaped text contains a backslash; R3 every hole between single quotes in any renderer "
         "(dataflow over the template IR of all writer functions) is escaped, hex or fixed-alphabet; R4 no lossy conversion on "
         "the payload path to write_string_quoted/write_bytes; R5 bytes are one two-digit hex hole per byte in the dialect's "
-        "frame; R6 every inline site uses value_to_string of the rendering backend",
+        "frame; R6 every inline site uses value_to_string of the rendering backend.  Where escape_string / write_string_quoted / "
+        "write_bytes are not of the extractable shapes (replace chain or character loop; literal prefix + escaped argument + "
+        "literal suffix under a contains-guard; one hex hole per byte in a loop) their bodies are interpreted instead - on every "
+        "string of length <= 2 over that alphabet and length 3 over one member of each class, resp. on byte strings covering "
+        "every nibble pattern - and the written literal is decoded by the same lexer oracle; a small-scope obligation guards "
+        "the bound",
         "one obligation per (backend, string over the alphabet) class, per quoted hole, per call site")
 
 QB = "crate::backend::query_builder::QueryBuilder"
@@ -189,6 +194,8 @@ def check_escape(run, f, cfg, adt, dialect):
             apply_fn = S.InterpStrFn(f, esc_name)
             m, problems = apply_fn.per_char(apply_fn.alphabet(extra="'\"\\"))
         except Anchor as e2:
+            from .. import scope
+            scope.check_bound(run, "C03.R1", "%s:scope" % dialect, f, [esc_name], 3, cfg, "%s escape_string (neither extractable nor interpretable)" % dialect)
             run.anchor("C03.R1", "%s:escape" % dialect, "%s; %s" % (e, e2), cfg)
             return
         chain = [(c, v) for c, v in sorted(m.items()) if v != c]
